@@ -308,12 +308,91 @@ def okPipe (P : Prog) (p : Pipeline) : Bool :=
               | none => true)
           | .split _ => false)
 
-/-- the whole program: every pipeline definition, and the top-level call -/
+/-! ### references into untyped maps (what `MakePipelineCallGraph` refuses)
+
+The real run time never materialises the outputs of a nested pipeline or the
+inputs of a called pipeline: `MakePipelineCallGraph` COMPOSES the bindings across
+pipeline boundaries, and a mapped call whose forks are known statically is expanded
+to a literal of references.  Wherever the composed expression below an UNTYPED
+`map` destination is a map / struct literal that contains a reference, the resolver
+refuses the program by design ("reference … cannot be bound inside an untyped
+map", known finding F-C07-UMAP; audit pass 2, N1), although the compile-time
+rules accept the binding.  The checked semantics `run` materialises values and
+does not model the composition; the decidable hypothesis below excludes,
+conservatively, every binding whose composed form can be such a literal. -/
+
+mutual
+  /-- the type contains the untyped `map` somewhere -/
+  def hasUMap : Ty → Bool
+    | .base b => b == .map
+    | .user _ => false
+    | .arr t => hasUMap t
+    | .tmap t => hasUMap t
+    | .struct _ fs => hasUMapF fs
+  def hasUMapF : Fields → Bool
+    | .nil => false
+    | .cons _ t r => hasUMap t || hasUMapF r
+end
+
+/-- a binding of `e` to a destination of type `t` is composed to something the
+resolver takes: `t` has no untyped map, or `e` has no reference, or `e` is a BARE
+reference to an output of a STAGE that is not map-called with statically known keys
+(a reference stays a reference; a run-time merge is resolved by `resolveMerge`,
+repaired by 5969c07), or a bare reference to an input of the TOP pipeline (bound to
+a reference-free literal by the top-level call).  Excluded: references nested in
+literals, outputs of nested pipelines, inputs of nested pipelines, statically
+expanded map calls. -/
+def umapExp (P : Prog) (inTop : Bool) (Γ : Env) (t : Ty) (e : Exp) : Bool :=
+  !hasUMap t || !e.hasRef ||
+    (match e with
+      | .call id _ =>
+        (match Γ.calls.lookup id with
+          | some sig =>
+            (P.find sig.name).isNone &&
+              (match sig.src with
+                | some (.map (some _)) => false
+                | _ => true)
+          | none => false)
+      | .self _ _ => inTop
+      | _ => false)
+
+def umapBind (P : Prog) (inTop : Bool) (Γ : Env) (t : Ty) : Bind → Bool
+  | .plain e => umapExp P inTop Γ t e
+  | .split e => umapExp P inTop Γ t e
+
+def umapCalls (P : Prog) (inTop : Bool) : Env → List CallStm → Bool
+  | _, [] => true
+  | Γ, c :: r =>
+    match checkStm Γ c, allBinds Γ c.callee.params c.binds c.wild with
+    | some sh, some bs =>
+      (bs.all fun ib =>
+        match c.callee.params.lookup ib.1 with
+        | some t => umapBind P inTop Γ t ib.2
+        | none => true) &&
+      umapCalls P inTop { Γ with calls := Γ.calls ++ [(c.id, c.sig sh)] } r
+    | _, _ => true
+
+/-- every call argument and every return binding of the pipeline -/
+def umapPipe (P : Prog) (inTop : Bool) (p : Pipeline) : Bool :=
+  umapCalls P inTop { self := p.ins, calls := [] } p.calls &&
+  (match checkCalls { self := p.ins, calls := [] } p.calls with
+    | none => true
+    | some Γ =>
+      match allBinds Γ p.outs.toList p.ret p.retWild with
+      | none => true
+      | some bs => bs.all fun ib =>
+          match p.outs.toList.lookup ib.1 with
+          | some t => umapBind P inTop Γ t ib.2
+          | none => true)
+
+/-- the whole program: every pipeline definition, the top-level call, and no
+reference that is composed into an untyped map -/
 def progOk (P : Prog) (top : CallStm) : Bool :=
   P.pipes.all (okPipe P) && validTop top &&
     (match checkStm emptyEnv top with
       | some sh => okStm P emptyEnv top sh
-      | none => false)
+      | none => false) &&
+    P.pipes.all (fun p => umapPipe P (p.name == top.callee.name) p)
 
 /-- no call of the program has a `disabled` modifier -/
 def noDisabled (P : Prog) (top : CallStm) : Bool :=
